@@ -257,6 +257,31 @@ def p3_pairs(ctx):
         so = {k for k in locs_in(fo['body'], fo, Renderer(fo)) if k[0] in ('bus16', 'acc', 'product')}
         if {k[0] for k in su} != {k[0] for k in so} or {k[1] for k in su} != {k[1] for k in so}:
             ctx.report(R, fo, fo['body'], 'push/pop(%s) storage' % ty, 'push reads %s, pop writes %s' % (sorted(su), sorted(so)))
+    # the extension word: pop(Abe) must rebuild all bits above 32 of the accumulator, i.e. sign-extend as many bits as the
+    # accumulator has above 32 (the width the arithmetic unit itself uses: SignExtend<W> of AddSub), under the matching mask
+    import re as _re
+    addsub = [f for f in ctx.F['functions'].values() if f.get('cls') == 'Teakra::Interpreter' and f['name'] == 'AddSub']
+    widths = sorted({int(m.group(1)) for f in addsub for n in walk(f['body']) if n.get('k') == 'call'
+                     for m in [_re.match(r'SignExtend<(\d+)U', short_fn(n.get('fn') or ''))] if m and int(m.group(1)) > 32})
+    ctx.require(len(widths) == 1, 'accumulator width not evident from AddSub: %s' % widths)
+    W = widths[0]
+    fo = [f for f in handlers(ctx, 'pop') if f['params'] and ('Abe' in f['params'][0]['t'] or 'b0e' in f['params'][0]['t'])]
+    ctx.require(len(fo) == 1, 'pop(Abe) not found')
+    ctx.inst(R)
+    ext = []
+    for n in walk(fo[0]['body']):
+        if n.get('k') == 'call':
+            m = _re.match(r'SignExtend<(\d+)U', short_fn(n.get('fn') or ''))
+            if m:
+                arg = unwrap_casts(n['args'][0]) if n.get('args') else None
+                mask = const_value(unwrap_casts(arg.get('rhs'))) if isinstance(arg, dict) and arg.get('k') == 'bin' and arg.get('op') == '&' else None
+                if mask is None and isinstance(arg, dict) and arg.get('k') == 'bin' and arg.get('op') == '&':
+                    mask = const_value(unwrap_casts(arg.get('lhs')))
+                ext.append((int(m.group(1)), mask))
+    if len(ext) != 1 or ext[0][0] != W - 32 or ext[0][1] != (1 << (W - 32)) - 1:
+        ctx.report(R, fo[0], fo[0]['body'], 'pop(Abe) extension width',
+                   'the popped extension is sign-extended as %s (bits, mask); the accumulator has %d bits above bit 31, so a pushed '
+                   'extension does not come back' % (ext, W - 32))
     # pusha(Ax) / pusha(Bx) / popa(Ab)
     pa = handlers(ctx, 'pusha')
     po = handlers(ctx, 'popa')
@@ -319,6 +344,20 @@ def p4_context(ctx):
     other = [x.get('k') for x in a + b if x.get('k') not in ('call', 'if')]
     if other:
         ctx.report(R, re_, re_['body'], 'ContextStore/Restore steps', 'unexpected step kinds %s' % other)
+    # ... as long as no step reads or overwrites what an earlier step of the same function has written (a save must see the
+    # entry value: ShadowStore reads the flags that the accumulator exchange of the ccnta branch rewrites)
+    from ..effects import Effects
+    EF = Effects(ctx.F)
+    for fn_, steps in ((st, a), (re_, b)):
+        eff = [EF.of_node(x) for x in steps]
+        for i in range(len(steps)):
+            for j in range(i + 1, len(steps)):
+                ctx.oblig(R)
+                dep = sorted(x[1] for x in (eff[i][1] & eff[j][0]) | (eff[i][1] & eff[j][1]))
+                if dep:
+                    ctx.report(R, fn_, steps[j], '%s order' % fn_['name'],
+                               'step %d (line %s) uses %s after step %d (line %s) has already changed it: the context is not saved / restored from the entry values'
+                               % (j, steps[j].get('l'), dep[:6], i, steps[i].get('l')))
     ifs_b = [y for y in b if y.get('k') == 'if']
     for i, x in enumerate([x for x in a if x.get('k') == 'if']):
         ctx.oblig(R)
